@@ -2306,10 +2306,16 @@ func (p *Parser) evaluateLogicalOperation(ctx context, operator LogicalOperator,
 		}
 		p.eat() // Eat operator token.
 		operatorValue := operatorToken.Value()
+		rightToken := p.peek()
 		rightExpression, errTemp := higherPrioOperation(ctx)
 
 		if errTemp != nil {
 			return nil, errTemp
+		}
+
+		// The right operand must be a boolean value as well.
+		if !rightExpression.ValueType().IsBool() {
+			return nil, p.expectedError("boolean value", rightToken)
 		}
 		leftExpression = LogicalOperation{
 			left:     leftExpression,
